@@ -70,7 +70,17 @@ func ZZ_C20_Variables(sv *zzsv.T) {
 	t := sv.Choice("type", nTypes)
 	val := zzValue(sv, "v", t, 2)
 	order := sv.Choice("order", 3) // set before Prepare / after Prepare / between runs
-	e := New("seen = v; w = 5; return v;")
+	shapes := []string{
+		"seen = v; w = 5; return v;",
+		// the variable's name is also a parameter of a function that returns from nested loops
+		"function g(v) { foreach a in [1, 2] { foreach b in [3, 4] { if (b == 4) { return a; } } } return 0; } u = g(9); seen = v; w = 5; return v;",
+		// read and returned from inside nested loops at top level
+		"foreach a in [1] { foreach b in [2] { seen = v; w = 5; return v; } }",
+		// a parameter of the same name is assigned inside the function
+		"function g(v) { v = 1; return v; } u = g(2); seen = v; w = 5; return v;",
+	}
+	shape := sv.Choice("shape", len(shapes))
+	e := New(shapes[shape])
 	sv.Note("script", e.Script)
 	sv.Note("types", zzTypeNames[t])
 	if order == 0 {
@@ -90,7 +100,9 @@ func ZZ_C20_Variables(sv *zzsv.T) {
 	// the object may have a field of the same name: the variable is what the
 	// script reads, also after other fields have been looked up
 	var obj interface{}
-	switch sv.Choice("object", 3) {
+	oc := sv.Choice("object", 3)
+	sv.Assume(oc == 0 || shape == 0)
+	switch oc {
 	case 1:
 		obj = map[string]interface{}{"v": "field-v", "other": 1}
 	case 2:
@@ -115,6 +127,8 @@ func ZZ_C20_Variables(sv *zzsv.T) {
 	}
 	sv.Assert("C20.var.get_literal", zzSame(sv, e.GetVariable("w"), zInt(5)))
 	sv.Assert("C20.var.get_never_assigned", zzSame(sv, e.GetVariable("q"), zNull()))
+	// loop variables and parameters are not variables of the script afterwards
+	sv.Assert("C20.var.get_loop_variable", zzSame(sv, e.GetVariable("a"), zNull()) && zzSame(sv, e.GetVariable("b"), zNull()))
 }
 
 // ZZ_C20_HostFunctions: a host function is called once per call with the
